@@ -301,6 +301,16 @@ class MHistory:
             d.read_fault = None
             self.ctx.count('master_died_on_a_connection_loss_while_handling_events')
             d.ops.append(('connection_loss_then_restart', d.read_fault_fired[0], d.read_fault_fired[1]))
+            # an operator's server_state event the dead master had not handled yet is handled by its successor, in the
+            # batch of whatever happens next: for the presence oracles it speaks as late as that batch
+            for ev in d.srv.children(d.z.EVENTS):
+                if '-server_state-' in ev:
+                    data = d.zkutils.get_default(d.admin, d.z.path.event(ev))
+                    if data:
+                        d.state_event_step[data[0]] = d.step_no
+                        if data[0] in getattr(d, 'state_requested', {}):
+                            st_ = d.state_requested[data[0]]
+                            d.state_requested[data[0]] = (st_[0], d.step_no, st_[2])
             return self.start()
         finally:
             d.read_fault = None
